@@ -137,8 +137,94 @@ int	ft_shift(char *src, int n)
 """
 
 
+# ... and conforming C outside the grammar of DESIGN §4.1 altogether: function-pointer parameters (with their own
+# parameter lists), `++`/`--` on both sides of an assignment, `*p++ = ...`; accepted by the unchanged tool.
+EXTRA_CONFORMING_BODY2 = """
+#include <stdlib.h>
+
+static void	ft_swap(char *a, char *b, size_t size)
+{
+	char	tmp;
+
+	while (size--)
+	{
+		tmp = *a;
+		*a++ = *b;
+		*b++ = tmp;
+	}
+}
+
+void	ft_sort(void *base, size_t n, size_t size, int (*cmp)(void *, void *))
+{
+	size_t	i;
+	size_t	j;
+	char	*tab;
+
+	tab = (char *)base;
+	i = 0;
+	while (i < n)
+	{
+		j = i + 1;
+		while (j < n)
+		{
+			if (cmp(tab + i * size, tab + j * size) > 0)
+				ft_swap(tab + i * size, tab + j * size, size);
+			j++;
+		}
+		i++;
+	}
+}
+
+int	ft_fold(int *tab, int n, int (*f)(int, int, int, int))
+{
+	int	acc;
+	int	i;
+
+	acc = 0;
+	i = 0;
+	while (i + 2 < n)
+	{
+		acc = f(acc, tab[i], tab[i + 1], tab[i + 2]);
+		i += 3;
+	}
+	return (acc);
+}
+
+char	*ft_copy(char *dst, const char *src, int n)
+{
+	int	i;
+	int	j;
+
+	i = 0;
+	j = 0;
+	while (j < n && src[j])
+		dst[i++] = src[j++];
+	while (n-- > j)
+		dst[i++] = 0;
+	*dst = *src;
+	dst[--i] = src[--j];
+	return (dst);
+}
+
+void	ft_apply(int (*cmp)(void *, void *), void (*each)(void *), void **items)
+{
+	int	k;
+
+	k = 0;
+	while (items[k])
+	{
+		each(items[k]);
+		if (items[k + 1] && cmp(items[k], items[k + 1]))
+			each(items[k + 1]);
+		k++;
+	}
+}
+"""
+
+
 def extra_conforming():
-    return [("ft_shift.c", header.header42("ft_shift.c") + EXTRA_CONFORMING_BODY)]
+    return [("ft_shift.c", header.header42("ft_shift.c") + EXTRA_CONFORMING_BODY),
+            ("ft_extra.c", header.header42("ft_extra.c") + EXTRA_CONFORMING_BODY2)]
 
 
 def extra_violating():
